@@ -128,6 +128,9 @@ impl<T: Sync + Send + 'static> Worker<T> {
             self.matches.par_extend(items);
             #[cfg(nucleo_verif)]
             crate::verif::permute_in_flight(&mut self.in_flight);
+            // The pool threads push the indices in whatever order they win the mutex,
+            // but `remove_in_flight_matches` relies on them being ascending.
+            self.in_flight.sort_unstable();
             self.last_snapshot = end;
         }
     }
